@@ -186,6 +186,21 @@ def _lifecycle(gen, steps, close):
     return n
 
 
+def _build(spec):
+    """
+    The graph of a spec, with the user's own attributes under names of every legal shape on some of its objects:
+    leading double underscore (written outside a class body nothing mangles them), trailing underscore, a dunder-like
+    name, a name with a dot.  They are data like any other.
+    """
+    g = graphs.build(spec)
+    objs = [o for o in list(g.verts) + list(g.edges) + [g.uni] if o is not None]
+    for n, o in enumerate(objs):
+        if n % 2 == 0:
+            for name, val in (("__weight", 42), ("__tmp_index", n), ("class_", "x"), ("__note__", "n"), ("a.b", 1)):
+                oracles.outcome(setattr, o, name, val)
+    return g
+
+
 def _puml(uni, table):
     try:
         return len(plantuml.render_to_plantuml_src(uni, table)) > 0
@@ -322,13 +337,13 @@ def cool(g):
 
 
 def run_graph(ctx, spec, cache, only=None):
-    g0 = graphs.build(spec)
+    g0 = _build(spec)
     if not g0.uni.vertices:
         return
     shape = trav._shape(spec)
     for n_ep in range(len(list(entry_points(g0)))):
         # a fresh graph per entry point: a violation must not pollute the next entry point's run
-        g = graphs.build(spec)
+        g = _build(spec)
         ep, cbdefs, call = list(entry_points(g))[n_ep]
         if only and ep != only:
             continue
